@@ -66,10 +66,36 @@ pub fn run_clone(cfg: &Cfg, kt: KeyType, ops: &[Op], clone_at: usize, fork_at: u
     }
     cb_take();
     let sa = a.snapshot(false);
-    let mut b = match a.clone_box() {
-        Err(p) => return Some(("clone-panic".into(), format!("clone() panicked: {} (state {})", p, snap_text(kind, &sa)), clone_at)),
-        Ok(None) => return None,
-        Ok(Some(b)) => b,
+    // either `clone()`, or `clone_from` onto an existing cache of the same configuration that
+    // already holds entries (sometimes exactly as many as the source)
+    let via_clone_from = seeds[1] % 3 == 0;
+    let mut b = if via_clone_from {
+        let mut t = match make_subject(cfg, kt) {
+            Ok(t) => t,
+            Err(_) => return None,
+        };
+        t.reseed(seeds);
+        let n_target = if seeds[2] % 2 == 0 { sa.as_ref().map(|s| s.total_items()).unwrap_or(0) } else { (seeds[2] % 5) as usize };
+        for j in 0..n_target {
+            let _ = t.exec(&Op::Put(100 + j as u32), 900_000 + j as u64);
+        }
+        cb_take();
+        match t.clone_from_dyn(a.as_ref()) {
+            Err(p) => return Some(("clone-panic".into(), format!("clone_from() panicked: {} (source state {})", p, snap_text(kind, &sa)), clone_at)),
+            Ok(false) => return None,
+            Ok(true) => {}
+        }
+        cov.must.bump("clone_from");
+        // entries the target held before are released by clone_from; callbacks for them are
+        // not pinned by the property
+        cb_take();
+        t
+    } else {
+        match a.clone_box() {
+            Err(p) => return Some(("clone-panic".into(), format!("clone() panicked: {} (state {})", p, snap_text(kind, &sa)), clone_at)),
+            Ok(None) => return None,
+            Ok(Some(b)) => b,
+        }
     };
     let cb_clone = cb_take();
     if !cb_clone.is_empty() {
@@ -228,7 +254,12 @@ pub fn c16_suite(ctx: &Ctx) -> ShardOut {
             ops = (0..8).map(Op::Put).chain([Op::Get(2, false), Op::Get(0, true), Op::Put(9), Op::Put(10), Op::Get(1, false), Op::Put(11)]).collect();
             first = false;
         }
-        let clone_at = rng.range(0, ops.len() as u64) as usize;
+        let mut clone_at = rng.range(0, ops.len() as u64) as usize;
+        if cfg.kind == Kind::Lru && rng.chance(1, 6) {
+            // the "unbounded" idiom right before the clone: nothing may pre-allocate by capacity
+            ops.insert(clone_at, Op::Resize(usize::MAX));
+            clone_at += 1;
+        }
         let fork_at = rng.range(clone_at as u64, ops.len() as u64) as usize;
         let keep_clone = rng.chance(1, 2);
         let seeds = [rng.next(), rng.next(), rng.next(), rng.next()];
